@@ -248,7 +248,7 @@ Print Assumptions C01_rsmi_pipeline.
         atom keeps all labels except that the hydrogens it has on BOTH sides (count = min(hcount, product hcount)) leave
         hcount and both halves of typesGH; the added atoms are hydrogen atoms with fresh ids; the added bonds are (1, 1)
         bonds with standard_order 0 to a fresh atom; every bond between original atoms is unchanged.
-        (How many hydrogens are attached to which atom is compared by the correspondence, not stated here.) *)
+        (How many hydrogens each atom gets: theorem 17.) *)
 Theorem C01_h_to_explicit_its : forall I : its, wf I ->
   let J := fst (h_to_explicit_its I) in
   let mx0 := fold_left N.max (node_ids I) 0%N in
@@ -262,3 +262,37 @@ Theorem C01_h_to_explicit_its : forall I : its, wf I ->
   (forall u v, (u <= mx0)%N -> (v <= mx0)%N -> adj J u v = adj I u v).
 Proof. exact h_to_explicit_its_spec. Qed.
 Print Assumptions C01_h_to_explicit_its.
+
+(** 17. ... and every original atom gets exactly as many hydrogen atoms (bonds (n, fresh, (1, 1, 0)) among the added bonds)
+        as leave its hcount and both halves of its typesGH, c = max 0 (min hcount product-hcount): its hydrogen total is
+        unchanged on both sides *)
+Theorem C01_h_to_explicit_count : forall I : its, wf I -> forall n a, label I n = Some a ->
+  let J := fst (h_to_explicit_its I) in
+  let c := Z.max 0 (hx_count a) in
+  exists ne, gedges J = gedges I ++ ne /\
+    length (filter (fun e : N * N * iedge => N.eqb (fst (fst e)) n) ne) = Z.to_nat c /\
+    (forall b, label J n = Some b ->
+       a_hc (i_G b) + c = a_hc (i_G a) /\ a_hc (i_H b) + c = a_hc (i_H a) /\ top_hc b + c = top_hc a).
+Proof. exact h_to_explicit_count. Qed.
+Print Assumptions C01_h_to_explicit_count.
+
+(** 18. with the writer option its_to_rsmi(its, explicit_hydrogen=True) nothing is folded (the decomposed graphs go to
+        GraphToMol as they are), so the string round trip relative to R1 holds for EVERY balanced reaction whose sides RDKit
+        reads, explicit hydrogen atoms included (no hydrogen hypothesis, compare theorem 15) *)
+Theorem C01_rsmi_pipeline_explicit : forall (str : Type) (rd_read : str -> option rmol) (rd_write : wmol -> option str),
+  (forall s0 m0 g w s, rd_read s0 = Some m0 -> wf g -> geq_sel g (graph_of m0) -> amap_id g ->
+     graph_to_wmol g = Some w -> rd_write w = Some s ->
+     exists m, rd_read s = Some m /\ (NoDup (map fst (mapped_nodes m)) /\ simple (mapped_bonds m)) /\ geq_sel (graph_of m) g) ->
+  forall r p mr mp, rd_read r = Some mr -> rd_read p = Some mp ->
+  (NoDup (map fst (mapped_nodes mr)) /\ simple (mapped_bonds mr)) ->
+  (NoDup (map fst (mapped_nodes mp)) /\ simple (mapped_bonds mp)) ->
+  let G := graph_of mr in let H := graph_of mp in
+  wf G -> wf H -> same_nodes G H -> orders_pos G -> orders_pos H ->
+  forall J r' p', rsmi_to_its_s rd_read r p = Some J -> its_to_rsmi_s_opt rd_write true J = Some (r', p') ->
+  J = its_construct G H /\
+  exists mr' mp', rd_read r' = Some mr' /\ rd_read p' = Some mp' /\
+                  (NoDup (map fst (mapped_nodes mr')) /\ simple (mapped_bonds mr')) /\
+                  (NoDup (map fst (mapped_nodes mp')) /\ simple (mapped_bonds mp')) /\
+                  geq_sel (graph_of mr') G /\ geq_sel (graph_of mp') H.
+Proof. exact rsmi_pipeline_explicit. Qed.
+Print Assumptions C01_rsmi_pipeline_explicit.
